@@ -137,6 +137,9 @@ class V:
     def __repr__(self):
         return "V(%r)" % (self.i,) if NATIVE else "<V>"
 
+    def __ch_deep_realize__(self, memo):
+        return self          # stays opaque when an engine model deep-realises a container it is in
+
     def __eq__(self, o):
         return isinstance(o, V) and self.i == o.i
 
